@@ -570,6 +570,14 @@ def generate(repo):
         prev = "fenv_%d" % i
     out.append("Definition fenv_all : fenv_t := %s." % prev)
     out.append("End Sem.")
+    out.append("(* the same environment built by a fold (linear under call-by-value evaluation; Exec/PySem.v proves it equal to fenv_all) *)")
+    out.append("Definition asts : list (string * fundef) := [%s]." % "; ".join("(%s, ast_%s)" % (cstr(q), ident(q)) for q in order))
+    out.append("Lemma build_chain_0 ext fuel : build genv fuel (firstn 0 asts) ext = ext.\nProof. reflexivity. Qed.")
+    for i, q in enumerate(order):
+        prevf = "fenv_%d ext fuel" % (i - 1) if i else "ext"
+        out.append("Lemma build_chain_%d ext fuel : build genv fuel (firstn %d asts) ext = fenv_%d ext fuel.\nProof. change (firstn %d asts) with ((firstn %d asts ++ [(%s, ast_%s)])%%list). rewrite build_app, build_chain_%d. reflexivity. Qed."
+                   % (i + 1, i + 1, i, i + 1, i, cstr(q), ident(q), i))
+    out.append("Lemma build_chain ext fuel : build genv fuel asts ext = fenv_all ext fuel.\nProof. exact (build_chain_%d ext fuel). Qed." % len(order))
     out.append("Definition translated : list string := [%s]." % "; ".join(cstr(q) for q in order if info[q][0] is not None))
     out.append("Definition untranslatable : list string := [%s]." % "; ".join(cstr(q) for q in order if info[q][0] is None))
     report = {q: {"ok": info[q][0] is not None, "reason": info[q][1],
